@@ -703,14 +703,30 @@ pub fn gen_seq(g: &mut G<'_>) -> u8 {
     }
 }
 
+/// Does the text resemble one of the statements the library answers itself, in *any* spelling
+/// (other case, extra blanks, leading blanks)?  Such text is "grey": a library may legitimately
+/// treat it either way, so generators of ordinary queries avoid it.
+pub fn looks_builtin_or_grey(t: &str) -> bool {
+    let l = t.trim_start().to_ascii_lowercase();
+    if l.starts_with("use") {
+        let rest = &l[3..];
+        return rest.is_empty() || rest.starts_with(|c: char| c.is_whitespace() || c == '`');
+    }
+    if l.starts_with("select") {
+        let rest = l[6..].trim_start();
+        return rest.starts_with("@@");
+    }
+    false
+}
+
 pub fn gen_query_text(g: &mut G<'_>) -> String {
-    // certainly not one of the built-in prefixes
+    // certainly not one of the built-in statements, in any spelling
     let body = match g.weighted(&[5, 3, 1]) {
         0 => g.pick(&["SELECT 1", "INSERT INTO t VALUES (1)", "select * from foo", "SHOW TABLES", "x"]).to_string(),
         1 => gen_string(g, false),
-        _ => g.pick(&["SELECT @x", "SELECT 1 -- @@", "SELEC @@", "USER()", "USEFUL", "use_db", "use", "USE", " USE x", "sELECT @@x"]).to_string(),
+        _ => g.pick(&["SELECT @x", "SELECT 1 -- @@", "SELEC @@", "USER()", "USEFUL", "use_db", "usedb", "SELECT @", "SELECTED @@", "(SELECT @@x)"]).to_string(),
     };
-    if body.starts_with("SELECT @@") || body.starts_with("select @@") || body.starts_with("USE ") || body.starts_with("use ") || body.is_empty() {
+    if body.is_empty() || looks_builtin_or_grey(&body) {
         format!("q{}", body)
     } else {
         body
